@@ -234,6 +234,33 @@ pub fn mutate(rng: &mut Rng, file: &[u8]) -> (Vec<u8>, &'static str) {
     let xml_bytes = extract_xml(file);
     let xml = String::from_utf8_lossy(&xml_bytes).to_string();
     let mut l = depage(file);
+    if rng.chance(1, 25) {
+        // a blob whose two length fields lie CONSISTENTLY: the descriptor in the XML and the section length in the
+        // blob's own header are both huge and agree, the file is tiny
+        if let Some(m) = xml.find(" type=\"Blob\" fileOffset=\"") {
+            let s = m + " type=\"Blob\" fileOffset=\"".len();
+            if let Some(e) = xml[s..].find('"') {
+                if let Ok(off) = xml[s..s + e].parse::<u64>() {
+                    let after = s + e;
+                    if let Some(lp) = xml[after..].find("length=\"") {
+                        let ls = after + lp + 8;
+                        if let Some(le) = xml[ls..].find('"') {
+                            let huge: u64 = *rng.pick(&[1u64 << 30, (1u64 << 30) + 12, 3u64 << 29]);
+                            let new_xml = format!("{}{}{}", &xml[..ls], huge, &xml[ls + le..]);
+                            let lo = p2l(off);
+                            if lo + 16 <= l.len() {
+                                let sl = (16 + huge + 3) / 4 * 4;
+                                l[lo + 8..lo + 16].copy_from_slice(&sl.to_le_bytes());
+                                if let Some(f) = with_xml(&repage(&l), new_xml.as_bytes()) {
+                                    return (f, "blob-lengths-consistent-huge");
+                                }
+                            }
+                        }
+                    }
+                }
+            }
+        }
+    }
     match rng.below(12) {
         0 => {
             // header field
@@ -287,6 +314,23 @@ pub fn mutate(rng: &mut Rng, file: &[u8]) -> (Vec<u8>, &'static str) {
             let s = *rng.pick(&offs) + 32 + rng.below(40) as usize;
             if s + 2 > l.len() {
                 return (file.to_vec(), "none");
+            }
+            if rng.chance(1, 4) {
+                // a whole non-data packet header written over the first packet of the section: an index packet
+                // (16 bytes, reserved bytes zero) or an ignored packet (4 bytes) with an extreme length field
+                let s0 = *rng.pick(&offs) + 32;
+                if s0 + 16 <= l.len() {
+                    let len = *rng.pick(&[0xFFFFu16, 0xFFFB, 15, 19, 3, 0, 0x7FFF]);
+                    if rng.chance(2, 3) {
+                        l[s0..s0 + 16].copy_from_slice(&[0u8; 16]);
+                        l[s0 + 2..s0 + 4].copy_from_slice(&len.to_le_bytes());
+                    } else {
+                        l[s0] = 2;
+                        l[s0 + 1] = 0;
+                        l[s0 + 2..s0 + 4].copy_from_slice(&len.to_le_bytes());
+                    }
+                    return (repage(&l), "packet");
+                }
             }
             match rng.below(3) {
                 0 => l[s] = *rng.pick(&[0u8, 1, 2, 3, 255]),
